@@ -71,6 +71,8 @@ MUTANTS = [
     ("second axis measured along the first", "AegeanTools/wcs_helpers.py",
      "        x_off, y_off = self.sky2pix(translate(ra, dec, b, pa - 90))",
      "        x_off, y_off = self.sky2pix(translate(ra, dec, a, pa - 90))", "C16-R5"),
+    ("minor axis corrected with the sine", "AegeanTools/wcs_helpers.py",
+     "        sy *= abs(np.cos(defect))", "        sy *= abs(np.sin(defect))", "C16-R7"),
 ]
 TWINS = [
     ("explicit conversion factor", "AegeanTools/wcs_helpers.py",
@@ -135,6 +137,7 @@ def run(ctx):
     formulae(ctx, prog, {"R1": "C16-R3", "R2": "C16-R3", "R3": "C16-R3"})
     # ---------------------------------------------------------------- R5
     r5_deps(ctx, ci)
+    r7_defect(ctx, prog, ci)
     from .. import precision
     precision.rule(
         ctx, prog, "C16-R6",
@@ -218,3 +221,73 @@ def r5_deps(ctx, ci):
                               ("depends on %s, which it must not" % extra)
                               if extra else ""), node=rn)
     ctx.floor("C16-R5", n, 16, "outputs of the vector / ellipse transforms")
+
+
+def r7_defect(ctx, prog, ci):
+    """the second axis is projected onto the perpendicular of the first"""
+    import sympy as sp
+    from .. import sym
+    from ..core import as_update
+    ctx.rule("C16-R7", "ellipse transforms: the two axis vectors are "
+             "perpendicular on the sky but not necessarily in the pixel "
+             "plane; both sky2pix_ellipse and pix2sky_ellipse scale the "
+             "second axis by |cos(defect)|, defect = difference of the two "
+             "direction angles (sibling agreement, symbolic)")
+    n = 0
+    for m in ("sky2pix_ellipse", "pix2sky_ellipse"):
+        fi = ci.methods.get(m)
+        if fi is None:
+            raise AnalysisError("C16-R7: %s missing" % m)
+        mod = prog.modules[fi.module]
+        ups = []
+        for st in walk_no_nested(fi.node):
+            u = as_update(st)
+            if u is not None and u[1] is ast.Mult and \
+                    isinstance(st, (ast.AugAssign, ast.Assign)):
+                ups.append(st)
+        ok = False
+        found = None
+        for st in ups:
+            val = st.value if isinstance(st, ast.AugAssign) else (
+                st.value.right if norm(st.value.left) ==
+                norm(st.targets[0]) else st.value.left)
+            tr = sym.Translator(prog, mod, {}, free_symbols=True)
+            try:
+                e0 = tr.expr(val)
+            except sym.Untranslatable:
+                continue
+            found = e0
+            if not (isinstance(e0, sp.Abs) and isinstance(e0.args[0],
+                                                          sp.cos)):
+                continue
+            arg = e0.args[0].args[0]
+            # a named angle: look at its (single) definition
+            for _ in range(3):
+                if len(arg.free_symbols) == 1:
+                    nm = str(next(iter(arg.free_symbols)))
+                    d = [s_ for s_ in walk_no_nested(fi.node)
+                         if isinstance(s_, ast.Assign) and
+                         norm(s_.targets[0]) == nm]
+                    if len(d) != 1:
+                        break
+                    try:
+                        arg = arg.subs(sp.Symbol(nm, real=True),
+                                       tr.expr(d[0].value))
+                    except sym.Untranslatable:
+                        break
+            syms = sorted(arg.free_symbols, key=str)
+            if len(syms) == 2:
+                a_, b_ = syms
+                swapped = arg.subs({a_: b_, b_: a_}, simultaneous=True)
+                if sp.simplify(swapped + arg) == 0 and \
+                        sp.simplify(arg) != 0:
+                    ok = True
+        n += 1
+        ctx.check("C16-R7", fi, "second axis correction in %s: %s" %
+                  (m, found), ok,
+                  "the second axis must be multiplied by abs(cos(angle "
+                  "between the mapped axis vectors minus 90 deg)); found %s: "
+                  "the returned minor axis is wrong wherever the pixel grid "
+                  "is not isotropic" % found,
+                  node=ups[0] if ups else fi.node)
+    ctx.floor("C16-R7", n, 2, "ellipse transforms")
